@@ -3,7 +3,7 @@
 import json, os, subprocess
 root = os.path.dirname(os.path.dirname(os.path.abspath(__file__)))
 
-HOOK_COMMITS = ["888e8a9"]
+HOOK_COMMITS = ["888e8a9", "0547c9f"]
 
 # id -> (category, level text, level_note, technique)
 P = {
